@@ -24,7 +24,7 @@ ENCODED = [
     "resonaate.tasking.engine.centralized_engine:CentralizedTaskingEngine.calculateRewards",
     "resonaate.tasking.engine.centralized_engine:CentralizedTaskingEngine.generateTasking",
 ]
-BOUNDS = {"shapes": "all (targets x sensors) shapes 1..3 x 1..3 (quick), up to 4x3 / 3x4 for all policies (thorough)",
+BOUNDS = {"shapes": "all (targets x sensors) shapes 1..3 x 1..3 (quick), up to 4x3 / 3x4 (thorough; random policy up to 4x2 / 2x4: its choice forks multiply the paths)",
           "rewards": "arbitrary reals incl. negative, zero and tied values", "metrics": "2x2 (summation) or 1x2 (cost-constrained, combined) target-sensor grid, all metric planes, delta in (0,1)"}
 OUTSIDE = ["scipy's Hungarian algorithm itself (contract stub)", "shapes above 4x3 / 3x4 (4x4 has 65536 visibility patterns, one path each: beyond the path budget)", "metric values (Fisher information, Lyapunov exponents ...)"]
 ASSUMPTIONS = ["scipy.optimize.linear_sum_assignment(R, maximize) -> a complete assignment (min(T,S) pairs, distinct rows/columns) that is optimal for the requested "
@@ -389,7 +389,8 @@ def obligations(tier):
     shapes = [(t, s) for t in (1, 2, 3) for s in (1, 2, 3)]
     big = [(4, 2), (2, 4), (4, 3), (3, 4)] if tier == "thorough" else []  # 4x4 has 2^16 visibility patterns = paths: beyond the path budget
     for pol in ("greedy", "allvisible", "random", "munkres"):
-        for (T, S) in shapes + (big if pol != "munkres" else ([(3, 4), (4, 3)] if tier == "thorough" else [])):
+        extra = big if pol in ("greedy", "allvisible") else ([(4, 2), (2, 4)] if pol == "random" and tier == "thorough" else ([(3, 4), (4, 3)] if tier == "thorough" else []))
+        for (T, S) in shapes + extra:
             name = f"{pol}-{T}x{S}"
             obs.append(Ob(name, (lambda a: lambda rep: o_policy(rep, *a))((pol, T, S)), f"{pol} policy on all {T}x{S} matrices", 900))
             REPLAYS[name] = replay_decision
